@@ -1,7 +1,7 @@
 (* Correspondence for C16: a configuration and a request list run on the real vestingsc
    contract (one pool), the outcome of every request (queued transfers) and the final pool
    (balance; per destination id, amount, vested, move). [vs_check] re-runs the model with the
-   float64 share function of the code. *)
+   integer share function of the code (vs_share_int). *)
 From ZC Require Import Base.Corr Model.Vesting.
 Open Scope Z_scope.
 
@@ -21,20 +21,11 @@ Definition vs_dest_view (d : vs_dest) : Z * Z * Z * Z := (vd_id d, vd_amount d, 
 Definition vs_q_eqb (x y : Z * Z * Z * Z) : bool := vs_tr_eqb (fst x) (fst y) && (snd x =? snd y).
 
 Definition vs_check (c : vs_case) : bool :=
-  let '(st, outs) := vs_run vs_share_f64 (vsc_conf c) None (vsc_ops c) in
+  let '(st, outs) := vs_run vs_share_int (vsc_conf c) None (vsc_ops c) in
   list_eqb vs_out_eqb outs (vsc_outs c) &&
   option_eqb (pair_eqb Z.eqb (list_eqb vs_q_eqb))
     (match st with Some p => Some (vp_balance p, map vs_dest_view (vp_dests p)) | None => None end)
     (vsc_final c).
 
-(* the same check against the integer share: for the integrator, to be used in place of [vs_check]
-   once the contract computes the share in integers (0 mismatches on the patched tree) *)
-Definition vs_share_exact_c : vs_share_fn := fun l p f ending =>
-  if ending then Some l else if (p <? 0) || (f <=? 0) then None else Some (l * p / f).
-
-Definition vs_check_exact (c : vs_case) : bool :=
-  let '(st, outs) := vs_run vs_share_exact_c (vsc_conf c) None (vsc_ops c) in
-  list_eqb vs_out_eqb outs (vsc_outs c) &&
-  option_eqb (pair_eqb Z.eqb (list_eqb vs_q_eqb))
-    (match st with Some p => Some (vp_balance p, map vs_dest_view (vp_dests p)) | None => None end)
-    (vsc_final c).
+(* same name as announced to the integrator *)
+Definition vs_check_exact : vs_case -> bool := vs_check.
